@@ -339,8 +339,9 @@ def work(spec):
     res['states'] = s.states
     res['transitions'] = s.transitions
     res['execs'] = s.transitions + c['probes']
+    longest = max(s.seen.values(), key=len) if s.seen else ()
     core.add_sample(res, {'first_op': [list(o) if isinstance(o, tuple) else o for o in first][:3], 'depth': depth, 'states': s.states,
-                          'new_states_per_level': s.levels})
+                          'new_states_per_level': s.levels, 'example_history_reaching_a_new_state': core.jsonable(list(longest))})
     return res
 
 
